@@ -246,7 +246,8 @@ std::string rand_token(Rng &r)
 std::string near_miss(Rng &r)
 {
 	static const char *nm[] = {"2012-01-0", "2012-13-45", "24:00:00", "2012-02-30", "12:34", "2012-1-1", "20120101", "2012-01-01-2012-01-02",
-				   "1-2-3", "99:99:99", "2012-01-011", "0000-00-00", "x2012-01-01y", "2012-01-01T25:00:00", "--", "::", "-", "2012-"};
+				   "1-2-3", "99:99:99", "2012-01-011", "0000-00-00", "x2012-01-01y", "2012-01-01T25:00:00", "--", "::", "-", "2012-",
+				   "2012-01-0b", "2012-02-00b", "2012-01-0B", "2012-00-10", "2012-01-0b x", "2012-03-00"};
 	return nm[r.below(sizeof(nm) / sizeof(*nm))];
 }
 
